@@ -1,0 +1,114 @@
+//go:build verif
+
+package eval
+
+// Read-only accessors used by the verification harness in /verif.
+// Compiled only with `-tags verif`; nothing here changes behaviour.
+
+type VerifNode struct {
+	Type     uint8 // node type bits
+	ScF, ScT bool  // short circuit flags
+	PAnd     bool  // parent is and (RCO flag)
+	POr      bool  // parent is or (RCO flag)
+	ChildCnt int8
+	ScIdx    int16
+	OsTop    int16
+	VarKey   int16
+	Value    Value // node value (operator name, variable name, constant, keyword, LoopEventData)
+	HasOp    bool
+}
+
+type VerifProg struct {
+	MaxStack int16
+	Nodes    []VerifNode
+	Parents  []int16
+}
+
+func VerifExport(e *Expr) VerifProg {
+	p := VerifProg{MaxStack: e.maxStackSize}
+	for _, n := range e.nodes {
+		p.Nodes = append(p.Nodes, VerifNode{
+			Type:     n.flag & nodeTypeMask,
+			ScF:      n.flag&scIfFalse == scIfFalse,
+			ScT:      n.flag&scIfTrue == scIfTrue,
+			PAnd:     n.flag&parentOpMask == andOp,
+			POr:      n.flag&parentOpMask == orOp,
+			ChildCnt: n.childCnt,
+			ScIdx:    n.scIdx,
+			OsTop:    n.osTop,
+			VarKey:   int16(n.varKey),
+			Value:    n.value,
+			HasOp:    n.operator != nil,
+		})
+	}
+	p.Parents = append(p.Parents, e.parentIdx...)
+	return p
+}
+
+type VerifToken struct {
+	Typ string
+	Val string
+}
+
+// VerifLex runs the lexer only (with the configuration's notation).
+func VerifLex(conf *Config, src string) ([]VerifToken, error) {
+	p := newParser(conf, src)
+	if err := p.lex(); err != nil {
+		return nil, err
+	}
+	res := make([]VerifToken, 0, len(p.tokens))
+	for _, t := range p.tokens {
+		res = append(res, VerifToken{Typ: string(t.typ), Val: t.val})
+	}
+	return res, nil
+}
+
+type VerifAst struct {
+	Type     uint8
+	Value    Value
+	VarKey   int16
+	Children []*VerifAst
+}
+
+func verifAst(a *astNode) *VerifAst {
+	r := &VerifAst{Type: a.node.flag & nodeTypeMask, Value: a.node.value, VarKey: int16(a.node.varKey)}
+	for _, c := range a.children {
+		r.Children = append(r.Children, verifAst(c))
+	}
+	return r
+}
+
+// VerifParse returns the syntax tree before (optimized=false) or after
+// (optimized=true) the optimization passes, and the parser's private config.
+func VerifParse(conf *Config, src string, optimized bool) (*VerifAst, *Config, error) {
+	ast, cc, err := newParser(conf, src).parse()
+	if err != nil {
+		return nil, nil, err
+	}
+	if optimized {
+		optimize(cc, ast)
+	}
+	return verifAst(ast), cc, nil
+}
+
+func VerifBuiltinNames() []string {
+	res := make([]string, 0, len(builtinOperators))
+	for k := range builtinOperators {
+		res = append(res, k)
+	}
+	return res
+}
+
+func VerifStatelessNames() []string {
+	return append([]string(nil), builtinStatelessOperations...)
+}
+
+// VerifBuiltin calls a built-in operator directly.
+func VerifBuiltin(name string, params []Value) (Value, error, bool) {
+	op, ok := builtinOperators[name]
+	if !ok {
+		return nil, nil, false
+	}
+	v, err := op(nil, params)
+	return v, err, true
+}
